@@ -102,13 +102,16 @@ func (c *queueClass_[V]) MakeFromArray(values []V) QueueLike[V] {
 func (c *queueClass_[V]) MakeFromSequence(values Sequential[V]) QueueLike[V] {
 	// The capacity must be able to hold all of the initial values, otherwise
 	// adding them would block on the new queue itself.
+	// The size is taken from the very iterator the values are read from: a
+	// sequence that is in use meanwhile (a queue with a producer waiting on it)
+	// may report one size and then hand out more values.
 	var capacity = c.defaultCapacity_
-	var size = uint(values.GetSize())
+	var iterator = values.GetIterator()
+	var size = uint(iterator.GetSize())
 	if size > capacity {
 		capacity = size
 	}
 	var queue = c.MakeWithCapacity(capacity)
-	var iterator = values.GetIterator()
 	for iterator.HasNext() {
 		var value = iterator.GetNext()
 		queue.AddValue(value) // This call handles the synchronization.
